@@ -27,7 +27,7 @@
 *)
 EXTENDS Naturals, FiniteSets, TLC
 
-CONSTANTS Threads, Socks, AtomicCheck, MaxDeliver
+CONSTANTS Threads, Socks, AtomicCheck, DeadBind, MaxDeliver
 
 Ops == {"recvfrom", "poll_recv", "accept", "connect", "recv", "sendto", "send", "poll_acks", "poll_send"}
 
@@ -48,13 +48,19 @@ Init ==
     /\ ndel = 0
 
 \* ---- application side --------------------------------------------------------------------------
+\* Since the fix "sockets can not be bound to a link controller that has terminated" terminate() walks the SAP
+\* table under the controller lock and bind() refuses once the access points are gone (DeadBind = FALSE).
+\* DeadBind = TRUE is the code before that fix: a bind racing with or following terminate() registers the
+\* socket with a dead table (reg = "dead") - TLC must then violate NoStuck.
 Bind(t, s) ==
     /\ th[t].pc = "idle" /\ sk[s].reg = "none" /\ sk[s].st = "OPEN"
-    /\ \/ phase = "up" /\ sk' = [sk EXCEPT ![s].reg = "live"] /\ toShut' = toShut
-       \/ phase = "terminating" /\ sk' = [sk EXCEPT ![s].reg = "live"] /\ toShut' = toShut \cup {s}  \* SAP not yet visited
-       \/ phase = "terminating" /\ sk' = [sk EXCEPT ![s].reg = "dead"] /\ toShut' = toShut            \* SAP already visited
-       \/ phase = "down" /\ sk' = [sk EXCEPT ![s].reg = "dead"] /\ toShut' = toShut
-    /\ UNCHANGED <<phase, th, ndel>>
+    /\ \/ phase = "up" /\ sk' = [sk EXCEPT ![s].reg = "live"] /\ toShut' = toShut /\ th' = th
+       \/ phase = "terminating" /\ sk' = [sk EXCEPT ![s].reg = "live"] /\ toShut' = toShut \cup {s} /\ th' = th  \* before the walk
+       \/ DeadBind /\ phase = "terminating" /\ sk' = [sk EXCEPT ![s].reg = "dead"] /\ toShut' = toShut /\ th' = th
+       \/ DeadBind /\ phase = "down" /\ sk' = [sk EXCEPT ![s].reg = "dead"] /\ toShut' = toShut /\ th' = th
+       \/ ~DeadBind /\ phase \in {"terminating", "down"} /\ sk' = sk /\ toShut' = toShut                       \* ESHUTDOWN
+          /\ th' = [th EXCEPT ![t] = [pc |-> "done", s |-> s, res |-> "error"]]
+    /\ UNCHANGED <<phase, ndel>>
 
 \* outcome of the state check + queue inspection made under the socket lock
 Outcome(s) ==
